@@ -61,6 +61,7 @@ func c18ScenarioN(withRestart bool, stopByCancel bool, restarts int) {
 //verif:horizon 3600000000000
 //verif:unroll 3
 //verif:timeout 300
+//verif:deadlock 1
 func VerifC18_StartStop() { c18Scenario(false, false) }
 
 // VerifC18_TwoRestartsNothingLeft: Start, Restart, Restart, Stop with the DEADLOCK / leak query: there is no reachable
@@ -80,6 +81,7 @@ func VerifC18_TwoRestartsNothingLeft() { c18ScenarioN(true, false, 2) }
 //verif:horizon 3600000000000
 //verif:unroll 3
 //verif:timeout 300
+//verif:deadlock 1
 func VerifC18_RestartStop() { c18Scenario(true, false) }
 
 var c18Restarts int
